@@ -380,18 +380,20 @@ pub fn run(ctx: Arc<Ctx>) {
 		{
 			let root = work.0.join("aliased.dir");
 			let files: Vec<(String, Vec<u8>)> = vec![
-				("3/1/2.jpg".into(), b"plain 3/1/2".to_vec()),
-				("3/1/02.jpg".into(), b"padded 3/1/02".to_vec()),
-				("3/01/3.jpeg".into(), b"padded column 3/01/3".to_vec()),
-				("3/1/3.jpg".into(), b"plain 3/1/3".to_vec()),
-				("03/2/2.jpeg".into(), b"padded level 03/2/2".to_vec()),
-				("3/5/5.JPG".into(), b"upper case 3/5/5".to_vec()),
+				("2/1/2.jpg".into(), b"plain 2/1/2".to_vec()),
+				("2/1/02.jpg".into(), b"padded 2/1/02".to_vec()),
+				("2/01/3.jpeg".into(), b"padded column 2/01/3".to_vec()),
+				("2/1/3.jpg".into(), b"plain 2/1/3".to_vec()),
+				("02/2/2.jpeg".into(), b"padded level 02/2/2".to_vec()),
+				("2/3/0.JPG".into(), b"upper case 2/3/0".to_vec()),
+				("1/0/1.jpg".into(), b"plain 1/0/1".to_vec()),
+				("1/0/01.jpeg".into(), b"padded, other spelling 1/0/01".to_vec()),
 				("9/255/256.jpeg".into(), b"9/255/256".to_vec()),
 				("9/256/256.jpg".into(), b"9/256/256".to_vec()),
 			];
 			crate::codec::dir_write(&root, &files).unwrap();
 			let mut uni = TileMap::new();
-			for k in [(3u8, 1u32, 2u32), (3, 1, 3), (3, 2, 2), (3, 5, 5), (9, 255, 256), (9, 256, 256)] {
+			for k in [(2u8, 1u32, 2u32), (2, 1, 3), (2, 2, 2), (2, 3, 0), (1, 0, 1), (9, 255, 256), (9, 256, 256)] {
 				uni.insert(k, vec![]);
 			}
 			match ct::open(&rt, Cont::Directory, &ct::Written::Path(root)) {
